@@ -914,3 +914,617 @@ Proof.
   unfold norm_psec. cbn [p_content p_opts]. rewrite (final_text_nonnil nl t Nil), F1, F2, F3, F4.
   rewrite (pre_resolve_idem _ _ _ _ (final_text nl t) R). cbn [indent_or_default]. rewrite final_text_idem. reflexivity.
 Qed.
+
+(* ---- metadata ---- *)
+Lemma remap_meta2 : forall a f,
+  remap "meta" (present [(B "encoding", a); (B "format", f)]) = present [(B "encoding", a); (B "meta_format", f)].
+Proof. intros a f. rewrite !present_cons. destruct (is_none a), (is_none f); reflexivity. Qed.
+
+Lemma meta_norm_facts : forall a f, hv_ok f = true ->
+  let o' := remap "meta" (present [(B "encoding", a); (B "format", f)]) in
+  kw o' "encoding" = a /\ kw_opt o' "meta_format" = Some f /\ only_keys o' ["encoding"; "meta_format"] = true.
+Proof.
+  intros a f Hf o'. unfold o'. rewrite remap_meta2. repeat split.
+  - rewrite kw_present by reflexivity. reflexivity.
+  - apply kw_opt_present; [reflexivity | reflexivity | apply hv_not_none; exact Hf].
+  - apply only_keys_present. reflexivity.
+Qed.
+
+Lemma format_hv : forall o, typed_opts o = true -> hv_ok (format_or_default (kw_opt o "meta_format")) = true.
+Proof.
+  intros o Ht. destruct (kw_opt o "meta_format") eqn:K; cbn [format_or_default];
+    [exact (kw_opt_ok _ _ _ Ht K) | vm_compute; reflexivity].
+Qed.
+
+Lemma meta_norm : forall m oc, typed_opts (m_opts m) = true -> call_meta m = Ok oc ->
+  exists oc', call_meta (norm_msec m) = Ok oc' /\ opt_equiv oc oc'.
+Proof.
+  intros [o ct] oc Ht H. unfold call_meta in H. unfold norm_msec. cbn [m_content m_opts] in *.
+  destruct (is_nil ct) eqn:Nil; [injection H as <-; exists None; split; [reflexivity | constructor]|].
+  destruct (negb (only_keys _ _)); [discriminate|]. injection H as <-.
+  pose proof (format_hv _ (typed_remap "meta" o Ht)) as Hf.
+  destruct (meta_norm_facts (kw (remap "meta" o) "encoding") _ Hf) as [F1 [F2 F3]].
+  unfold call_meta. cbn [m_content m_opts]. rewrite Nil, F3. cbn [negb]. rewrite F1, F2.
+  eexists. split; [reflexivity|]. constructor. apply ce_meta.
+Qed.
+
+Lemma norm_msec_idem : forall m, typed_opts (m_opts m) = true -> norm_msec (norm_msec m) = norm_msec m.
+Proof.
+  intros [o ct] Ht. unfold norm_msec at 2 3. cbn [m_content m_opts] in *.
+  destruct (is_nil ct) eqn:Nil; [reflexivity|].
+  pose proof (format_hv _ (typed_remap "meta" o Ht)) as Hf.
+  destruct (meta_norm_facts (kw (remap "meta" o) "encoding") _ Hf) as [F1 [F2 F3]].
+  unfold norm_msec. cbn [m_content m_opts]. rewrite Nil, F1, F2. reflexivity.
+Qed.
+
+(* ---- diff ---- *)
+Lemma remap_diff3 : forall a l ty,
+  remap "diff" (present [(B "encoding", a); (B "line_endings", l); (B "type", ty)])
+  = present [(B "encoding", a); (B "line_endings", l); (B "diff_type", ty)].
+Proof. intros a l ty. rewrite !present_cons. destruct (is_none a), (is_none l), (is_none ty); reflexivity. Qed.
+
+Lemma diff_norm_facts : forall a l ty,
+  let o' := remap "diff" (present [(B "encoding", a); (B "line_endings", l); (B "type", ty)]) in
+  kw o' "encoding" = a /\ kw o' "line_endings" = l /\ kw o' "diff_type" = ty /\
+  only_keys o' ["diff_type"; "encoding"; "line_endings"] = true.
+Proof.
+  intros a l ty o'. unfold o'. rewrite remap_diff3.
+  repeat split; try (rewrite kw_present by reflexivity; reflexivity).
+  apply only_keys_present. reflexivity.
+Qed.
+
+Lemma diff_prepared_nonnil : forall le enc b, is_nil b = false -> is_nil (fst (diff_prepared le enc b)) = false.
+Proof.
+  intros le enc b H. unfold diff_prepared. destruct (diff_prepare le enc b) as [[body lo]|e] eqn:E; [|exact H].
+  cbn [fst]. destruct (diff_prepare_shape _ _ _ _ _ E) as [nlb [-> _]].
+  destruct (bends _ b); [exact H | apply is_nil_app; exact H].
+Qed.
+
+Lemma diff_norm : forall d oc, call_diff d = Ok oc ->
+  exists oc', call_diff (norm_dsec d) = Ok oc' /\ opt_equiv oc oc'.
+Proof.
+  intros [o ct] oc H. unfold call_diff in H. unfold norm_dsec. cbn [x_content x_opts] in *.
+  destruct ct as [b|]; [|injection H as <-; exists None; split; [reflexivity | constructor]].
+  destruct (is_nil b) eqn:Nil; [injection H as <-; exists None; split; [reflexivity | constructor]|].
+  destruct (negb (only_keys _ _)); [discriminate|]. injection H as <-.
+  set (o1 := remap "diff" o).
+  pose proof (diff_prepared_nonnil (kw o1 "line_endings") (kw o1 "encoding") b Nil) as Nb.
+  pose proof (ce_diff b (kw o1 "diff_type") (kw o1 "encoding") (kw o1 "line_endings")) as C.
+  destruct (diff_prepared (kw o1 "line_endings") (kw o1 "encoding") b) as [body lo]. cbn [fst snd] in *.
+  destruct (diff_norm_facts (kw o1 "encoding") lo (kw o1 "diff_type")) as [F1 [F2 [F3 F4]]].
+  unfold call_diff. cbn [x_content x_opts]. rewrite Nb, F4. cbn [negb]. rewrite F1, F2, F3.
+  eexists. split; [reflexivity|]. constructor. exact C.
+Qed.
+
+Lemma norm_dsec_idem : forall d, diff_stable d -> norm_dsec (norm_dsec d) = norm_dsec d.
+Proof.
+  intros [o ct] Hs. unfold diff_stable in Hs. unfold norm_dsec at 2 3. cbn [x_content x_opts] in *.
+  destruct ct as [b|]; [|reflexivity]. destruct (is_nil b) eqn:Nil; [reflexivity|].
+  set (o1 := remap "diff" o) in *.
+  pose proof (diff_prepared_nonnil (kw o1 "line_endings") (kw o1 "encoding") b Nil) as Nb.
+  assert (St : forall body lo, diff_prepared (kw o1 "line_endings") (kw o1 "encoding") b = (body, lo) ->
+                               diff_prepared lo (kw o1 "encoding") body = (body, lo)).
+  { intros body lo E. unfold diff_prepared in E.
+    destruct (diff_prepare (kw o1 "line_endings") (kw o1 "encoding") b) as [[body' lo']|e] eqn:E1.
+    - injection E as <- <-. unfold diff_prepared. rewrite (Hs _ _ eq_refl). reflexivity.
+    - injection E as <- <-. unfold diff_prepared. rewrite E1. reflexivity. }
+  destruct (diff_prepared (kw o1 "line_endings") (kw o1 "encoding") b) as [body lo] eqn:E. cbn [fst snd] in *.
+  destruct (diff_norm_facts (kw o1 "encoding") lo (kw o1 "diff_type")) as [F1 [F2 [F3 F4]]].
+  unfold norm_dsec. cbn [x_content x_opts]. rewrite Nb, F1, F2, F3, (St body lo eq_refl). reflexivity.
+Qed.
+
+(* ---- containers and main options ---- *)
+Lemma norm_copts_idem : forall o, norm_copts (norm_copts o) = norm_copts o.
+Proof. intro o. unfold norm_copts. rewrite kw_present by reflexivity. reflexivity. Qed.
+
+Lemma norm_copts_call : forall name o c, call_container name o = Ok c -> call_container name (norm_copts o) = Ok c.
+Proof.
+  intros name o c H. unfold call_container in *. destruct (negb (only_keys o _)); [discriminate|].
+  unfold norm_copts. rewrite only_keys_present by reflexivity. cbn [negb].
+  rewrite kw_present by reflexivity. exact H.
+Qed.
+
+Lemma tree_version_hv : forall t, typed_opts (d_opts t) = true -> hv_ok (tree_version t) = true.
+Proof.
+  intros t Ht. unfold tree_version. destruct (assoc_get _ _ _) eqn:G; [exact (typed_get _ _ _ Ht G) | vm_compute; reflexivity].
+Qed.
+
+Lemma norm_main : forall t, typed_opts (d_opts t) = true ->
+  tree_encoding (normalise t) = tree_encoding t /\ tree_version (normalise t) = tree_version t /\
+  main_keys_ok (normalise t) = true.
+Proof.
+  intros t Ht. pose proof (tree_version_hv t Ht) as Hv.
+  unfold tree_encoding at 1, tree_version at 1, main_keys_ok. cbn [normalise d_opts]. unfold norm_main_opts.
+  repeat split.
+  - change (match assoc_get beq (B "encoding") ?o with Some v => v | None => WNone end) with (kw o "encoding").
+    rewrite kw_present by reflexivity. reflexivity.
+  - pose proof (kw_opt_present [(B "encoding", tree_encoding t); (B "version", tree_version t)] "version" _
+                  eq_refl eq_refl (hv_not_none _ Hv)) as E.
+    unfold kw_opt in E. rewrite E. reflexivity.
+  - rewrite !present_cons. destruct (is_none (tree_encoding t)), (is_none (tree_version t)); reflexivity.
+Qed.
+
+(* ---- assembling: idempotence ---- *)
+Lemma norm_file_idem : forall f, typed_file f = true -> file_stable f -> norm_file (norm_file f) = norm_file f.
+Proof.
+  intros f Ht Hs. unfold typed_file in Ht. apply andb_true_iff in Ht. destruct Ht as [Ht Ht3].
+  apply andb_true_iff in Ht. destruct Ht as [Ht1 Ht2].
+  unfold norm_file at 1. cbn [norm_file f_opts f_meta f_diff].
+  rewrite norm_copts_idem, (norm_msec_idem _ Ht2), (norm_dsec_idem _ Hs). reflexivity.
+Qed.
+
+Lemma map_idem {A} : forall (f : A -> A) (ok : A -> bool) (st : A -> Prop) l,
+  (forall x, ok x = true -> st x -> f (f x) = f x) -> forallb ok l = true -> Forall st l -> map f (map f l) = map f l.
+Proof.
+  intros f ok st l H. induction l as [|x l IH]; intros Ho Hs; [reflexivity|].
+  cbn [forallb] in Ho. apply andb_true_iff in Ho. destruct Ho as [H1 H2]. inversion Hs; subst.
+  cbn [map]. rewrite H by assumption. rewrite IH by assumption. reflexivity.
+Qed.
+
+Lemma norm_change_idem : forall c, typed_change c = true -> change_stable c -> norm_change (norm_change c) = norm_change c.
+Proof.
+  intros c Ht Hs. unfold typed_change in Ht. apply andb_true_iff in Ht. destruct Ht as [Ht Ht4].
+  apply andb_true_iff in Ht. destruct Ht as [Ht Ht3]. apply andb_true_iff in Ht. destruct Ht as [Ht1 Ht2].
+  unfold norm_change at 1. cbn [norm_change c_opts c_pre c_meta c_files].
+  rewrite norm_copts_idem, (norm_psec_idem _ Ht2), (norm_msec_idem _ Ht3).
+  rewrite (map_idem norm_file typed_file file_stable _ norm_file_idem Ht4 Hs). reflexivity.
+Qed.
+
+Theorem C06_normalise_idem : forall t, typed_tree t = true -> tree_stable t -> normalise (normalise t) = normalise t.
+Proof.
+  intros t Ht Hs. unfold typed_tree in Ht. apply andb_true_iff in Ht. destruct Ht as [Ht Ht4].
+  apply andb_true_iff in Ht. destruct Ht as [Ht Ht3]. apply andb_true_iff in Ht. destruct Ht as [Ht1 Ht2].
+  destruct (norm_main t Ht1) as [E1 [E2 _]].
+  unfold normalise at 1. unfold norm_main_opts. rewrite E1, E2. cbn [normalise d_pre d_meta d_changes].
+  rewrite (norm_psec_idem _ Ht2), (norm_msec_idem _ Ht3).
+  rewrite (map_idem norm_change typed_change change_stable _ norm_change_idem Ht4 Hs). reflexivity.
+Qed.
+
+(* ---- assembling: the calls of the normalised tree ---- *)
+Definition thunk_rel (th th' : thunk) : Prop :=
+  forall oc, th = Ok oc -> exists oc', th' = Ok oc' /\ opt_equiv oc oc'.
+
+Lemma collect_rel : forall l l', Forall2 thunk_rel l l' ->
+  forall cs, collect l = Ok cs -> exists cs', collect l' = Ok cs' /\ Forall2 calls_equiv cs cs'.
+Proof.
+  induction 1 as [|th th' l l' R _ IH]; intros cs H.
+  - cbn in H. injection H as <-. exists []. split; [reflexivity | constructor].
+  - destruct th as [[c|]|e]; cbn [collect] in H; [| |discriminate].
+    + destruct (collect l) as [cs0|] eqn:E; cbn [bind] in H; [|discriminate]. injection H as <-.
+      destruct (R _ eq_refl) as [oc' [-> Q]]. inversion Q; subst.
+      destruct (IH _ eq_refl) as [cs' [E' F]]. exists (c' :: cs'). cbn [collect]. rewrite E'.
+      split; [reflexivity | constructor; assumption].
+    + destruct (R _ eq_refl) as [oc' [-> Q]]. inversion Q; subst. cbn [collect]. apply IH. exact H.
+Qed.
+
+Lemma container_rel : forall name o, thunk_rel (some_call (call_container name o)) (some_call (call_container name (norm_copts o))).
+Proof.
+  intros name o oc H. destruct (call_container name o) as [c|e] eqn:E; cbn [some_call] in H; [|discriminate].
+  injection H as <-. rewrite (norm_copts_call _ _ _ E). exists (Some c). split; [reflexivity|]. constructor.
+  unfold call_container in E. destruct (negb _); [discriminate|]. injection E as <-.
+  destruct (String.eqb name "change"); constructor.
+Qed.
+
+Lemma file_rel : forall f, typed_file f = true -> Forall2 thunk_rel (file_thunks f) (file_thunks (norm_file f)).
+Proof.
+  intros f Ht. unfold typed_file in Ht. apply andb_true_iff in Ht. destruct Ht as [Ht Ht3].
+  apply andb_true_iff in Ht. destruct Ht as [Ht1 Ht2].
+  unfold file_thunks. cbn [norm_file f_opts f_meta f_diff].
+  constructor; [apply container_rel|]. constructor; [intros oc H; exact (meta_norm _ _ Ht2 H)|].
+  constructor; [intros oc H; exact (diff_norm _ _ H) | constructor].
+Qed.
+
+Lemma flat_rel {A} : forall (th : A -> list thunk) (nf : A -> A) (ok : A -> bool) l,
+  (forall x, ok x = true -> Forall2 thunk_rel (th x) (th (nf x))) -> forallb ok l = true ->
+  Forall2 thunk_rel (flat_map th l) (flat_map th (map nf l)).
+Proof.
+  intros th nf ok l H. induction l as [|x l IH]; intro Ho; [constructor|].
+  cbn [forallb] in Ho. apply andb_true_iff in Ho. destruct Ho as [H1 H2].
+  cbn [map flat_map]. apply Forall2_app; [apply H; exact H1 | apply IH; exact H2].
+Qed.
+
+Lemma change_rel : forall c, typed_change c = true -> Forall2 thunk_rel (change_thunks c) (change_thunks (norm_change c)).
+Proof.
+  intros c Ht. unfold typed_change in Ht. apply andb_true_iff in Ht. destruct Ht as [Ht Ht4].
+  apply andb_true_iff in Ht. destruct Ht as [Ht Ht3]. apply andb_true_iff in Ht. destruct Ht as [Ht1 Ht2].
+  unfold change_thunks. cbn [norm_change c_opts c_pre c_meta c_files]. apply Forall2_app.
+  - constructor; [apply container_rel|]. constructor; [intros oc H; exact (pre_norm _ _ Ht2 H)|].
+    constructor; [intros oc H; exact (meta_norm _ _ Ht3 H) | constructor].
+  - apply (flat_rel file_thunks norm_file typed_file _ file_rel Ht4).
+Qed.
+
+Theorem C06_tree_calls_normalised : forall t cs, typed_tree t = true -> tree_calls t = Ok cs ->
+  exists cs', tree_calls (normalise t) = Ok cs' /\ Forall2 calls_equiv cs cs'.
+Proof.
+  intros t cs Ht H. unfold typed_tree in Ht. apply andb_true_iff in Ht. destruct Ht as [Ht Ht4].
+  apply andb_true_iff in Ht. destruct Ht as [Ht Ht3]. apply andb_true_iff in Ht. destruct Ht as [Ht1 Ht2].
+  unfold tree_calls in *. apply (collect_rel (tree_thunks t)); [|exact H].
+  unfold tree_thunks. cbn [normalise d_pre d_meta d_changes]. apply Forall2_app.
+  - constructor; [intros oc H'; exact (pre_norm _ _ Ht2 H')|].
+    constructor; [intros oc H'; exact (meta_norm _ _ Ht3 H') | constructor].
+  - apply (flat_rel change_thunks norm_change typed_change _ change_rel Ht4).
+Qed.
+(* ================================================================================================ *)
+(* Part 4 (C06): re-preparing prepared content is a fixed point; re-serialisation *)
+
+Definition le_check (le : wv) : res bool :=
+  match le with WNone => Ok true | v => in_strset v GenText.line_endings_values end.
+
+Definition diff_newline (nlb : bytes) (enc : wv) : bytes := strip_bom nlb (diff_en1 enc).
+Definition with_newline (n b : bytes) : bytes := if bends n b then b else b ++ n.
+
+Lemma diff_prepare_checks : forall le enc b body lo, diff_prepare le enc b = Ok (body, lo) ->
+  is_nil b = false /\ le_check le = Ok true.
+Proof.
+  intros le enc b body lo H. unfold diff_prepare, prepare_content in H. fold (le_check le) in H.
+  destruct (is_nil b); [discriminate|]. split; [reflexivity|].
+  destruct (le_check le) as [[|]|]; cbn [bind negb] in H; try discriminate. reflexivity.
+Qed.
+
+Lemma diff_prepare_declared : forall le enc b nl nlb,
+  is_nil b = false -> le_check le = Ok true -> declared_newline le = Some nl ->
+  encode_dyn nl (diff_newline_encoding enc) = Ok nlb ->
+  diff_prepare le enc b = Ok (with_newline (diff_newline nlb enc) b, le).
+Proof.
+  intros le enc b nl nlb Nil C Dn E. unfold diff_prepare, prepare_content. fold (le_check le).
+  rewrite Nil, C. cbn [bind negb]. rewrite andb_false_r. cbn [bind].
+  fold (declared_newline le). fold (diff_newline_encoding enc). fold (diff_en1 enc).
+  rewrite Dn, E. reflexivity.
+Qed.
+
+Lemma with_newline_idem : forall n b, with_newline n (with_newline n b) = with_newline n b.
+Proof.
+  intros n b. unfold with_newline at 1.
+  assert (E : bends n (with_newline n b) = true).
+  { unfold with_newline. destruct (bends n b) eqn:S; [exact S|]. unfold bends. apply suffixb_app_self. exact byte_eqb_refl. }
+  rewrite E. reflexivity.
+Qed.
+
+Lemma guess_bytes_inv : forall b en l nlb, guess_line_endings_bytes b en = Ok (l, nlb) ->
+  exists x, py_encode (nl_text l) (enc_or_ascii en) = Ok x /\ nlb = strip_bom x (Some (enc_or_ascii en)) /\
+            (l = GenText.le_unix \/ l = GenText.le_dos).
+Proof.
+  intros b en l nlb H. unfold guess_line_endings_bytes in H.
+  destruct (py_encode (nl_text GenText.le_unix) _) as [u0|] eqn:U; cbn [bind] in H; [|discriminate].
+  destruct (py_encode (nl_text GenText.le_dos) _) as [d0|] eqn:Dd; cbn [bind] in H; [|discriminate].
+  destruct (bfind _ _); [destruct (bends _ _)|]; injection H as <- <-; eauto.
+Qed.
+
+Lemma encode_dyn_name : forall t enc en, enc_name (diff_newline_encoding enc) = Ok en ->
+  encode_dyn t (diff_newline_encoding enc) = py_encode t (enc_or_ascii en).
+Proof.
+  intros t enc en H. unfold diff_newline_encoding in *.
+  destruct (wv_truthy enc) eqn:Tr.
+  - destruct enc; cbn [enc_name encode_dyn] in *; try discriminate.
+    destruct (c_enc ascii t0); [injection H as <-; reflexivity | discriminate].
+  - cbn [enc_name encode_dyn] in *. destruct (c_enc ascii _); [injection H as <-; reflexivity | discriminate].
+Qed.
+
+(* the one codec-level fact needed: stripping the BOM of an encoded newline twice is stripping it once *)
+Definition bom_stable (enc : wv) : Prop :=
+  forall en l x, enc_name (diff_newline_encoding enc) = Ok en ->
+    (l = GenText.le_unix \/ l = GenText.le_dos) ->
+    py_encode (nl_text l) (enc_or_ascii en) = Ok x ->
+    strip_bom (strip_bom x (Some (enc_or_ascii en))) (diff_en1 enc) = strip_bom x (diff_en1 enc).
+
+Lemma le_named_facts : forall l, l = GenText.le_unix \/ l = GenText.le_dos ->
+  le_check (WStr (ascii_text l)) = Ok true /\ declared_newline (WStr (ascii_text l)) = Some (nl_text l).
+Proof. intros l [-> | ->]; split; vm_compute; reflexivity. Qed.
+
+Theorem C06_prepare_idem_bytes : forall le enc b body lo,
+  bom_stable enc -> diff_prepare le enc b = Ok (body, lo) -> diff_prepare lo enc body = Ok (body, lo).
+Proof.
+  intros le enc b body lo Hb H.
+  destruct (diff_prepare_checks _ _ _ _ _ H) as [Nil Chk].
+  destruct (diff_prepare_shape _ _ _ _ _ H) as [nlb [Eb Hc]].
+  fold (diff_newline nlb enc) in Eb. fold (with_newline (diff_newline nlb enc) b) in Eb.
+  assert (Nb : is_nil body = false).
+  { subst body. unfold with_newline. destruct (bends _ b); [exact Nil | apply is_nil_app; exact Nil]. }
+  destruct Hc as [[nl [Dn [-> En]]] | [en [l [Dn [En [G ->]]]]]].
+  - rewrite (diff_prepare_declared le enc body nl nlb Nb Chk Dn En). subst body. rewrite with_newline_idem. reflexivity.
+  - destruct (guess_bytes_inv _ _ _ _ G) as [x [Px [Ex Hl]]].
+    destruct (le_named_facts l Hl) as [C2 D2].
+    assert (E2 : encode_dyn (nl_text l) (diff_newline_encoding enc) = Ok x) by (rewrite (encode_dyn_name _ _ _ En); exact Px).
+    rewrite (diff_prepare_declared _ enc body _ x Nb C2 D2 E2).
+    assert (EN : diff_newline x enc = diff_newline nlb enc).
+    { unfold diff_newline. rewrite Ex. symmetry. apply (Hb en l x En Hl Px). }
+    rewrite EN. subst body. rewrite with_newline_idem. reflexivity.
+Qed.
+
+From DXGen Require GenCodecs.
+(* [bom_stable] holds for every encoding value: checked on every spelling of the generated codec table *)
+Definition bom_row_ok (r : GenCodecs.codec_row) : bool :=
+  let e := GenCodecs.cr_spelling r in
+  forallb (fun l => match py_encode (nl_text l) e with
+                    | Ok x => beq (strip_bom (strip_bom x (Some e)) (Some e)) (strip_bom x (Some e))
+                    | Err _ => true
+                    end) [GenText.le_unix; GenText.le_dos].
+
+Lemma bom_table : forallb bom_row_ok GenCodecs.rows = true.
+Proof. vm_compute. reflexivity. Qed.
+
+Lemma find_row_In : forall s rows r, find_row s rows = Some r -> In r rows /\ s = GenCodecs.cr_spelling r.
+Proof.
+  induction rows as [|r0 rows IH]; intros r H; [discriminate|]. cbn [find_row] in H.
+  destruct (beq s (GenCodecs.cr_spelling r0)) eqn:E.
+  - injection H as <-. split; [left; reflexivity | apply beq_true_eq; exact E].
+  - destruct (IH r H) as [H1 H2]. split; [right; exact H1 | exact H2].
+Qed.
+
+Lemma bom_twice : forall e l x, (l = GenText.le_unix \/ l = GenText.le_dos) -> py_encode (nl_text l) e = Ok x ->
+  strip_bom (strip_bom x (Some e)) (Some e) = strip_bom x (Some e).
+Proof.
+  intros e l x Hl P.
+  assert (R : exists r, find_row e GenCodecs.rows = Some r).
+  { unfold py_encode, lookup_codec in P. destruct (find_row e GenCodecs.rows) as [r|]; [eauto | discriminate]. }
+  destruct R as [r R]. destruct (find_row_In _ _ _ R) as [Hin ->].
+  pose proof bom_table as Tb. rewrite forallb_forall in Tb. specialize (Tb r Hin).
+  unfold bom_row_ok in Tb. cbn [forallb] in Tb. apply andb_true_iff in Tb. destruct Tb as [T1 T2].
+  apply andb_true_iff in T2. destruct T2 as [T2 _].
+  destruct Hl as [-> | ->]; [rewrite P in T1; apply beq_true_eq; exact T1 | rewrite P in T2; apply beq_true_eq; exact T2].
+Qed.
+
+Lemma bom_ascii : forall l x, (l = GenText.le_unix \/ l = GenText.le_dos) -> py_encode (nl_text l) (B "ascii") = Ok x ->
+  strip_bom x (Some (B "ascii")) = x /\ strip_bom x (Some []) = x.
+Proof. intros l x [-> | ->] P; vm_compute in P; injection P as <-; split; vm_compute; reflexivity. Qed.
+
+Theorem bom_stable_all : forall enc, bom_stable enc.
+Proof.
+  intros enc en l x En Hl P. unfold diff_newline_encoding in En.
+  destruct (wv_truthy enc) eqn:Tr.
+  - destruct enc; cbn [enc_name] in En; try discriminate.
+    cbn [diff_en1]. destruct (c_enc ascii t) as [eb|]; [|discriminate]. injection En as <-. cbn [enc_or_ascii] in *.
+    apply (bom_twice eb l x Hl P).
+  - assert (En' : en = Some (B "ascii")).
+    { change (enc_name (WStr (ascii_text (B "ascii")))) with (Ok (A := option bytes) (Some (B "ascii"))) in En. injection En as <-. reflexivity. }
+    subst en. cbn [enc_or_ascii] in *. destruct (bom_ascii l x Hl P) as [A1 A2]. rewrite A1.
+    reflexivity.
+Qed.
+
+Lemma tree_stable_all : forall t, tree_stable t.
+Proof.
+  intro t. unfold tree_stable, change_stable, file_stable, diff_stable.
+  apply Forall_forall. intros c _. apply Forall_forall. intros f _.
+  destruct (x_content (f_diff f)); [|exact I]. intros body lo H.
+  exact (C06_prepare_idem_bytes _ _ _ _ _ (bom_stable_all _) H).
+Qed.
+
+Theorem C06_normalise_idem_typed : forall t, typed_tree t = true -> normalise (normalise t) = normalise t.
+Proof. intros t Ht. apply C06_normalise_idem; [exact Ht | apply tree_stable_all]. Qed.
+
+(* ---- re-serialisation: equivalent calls do the same thing ---- *)
+Definition call_same (c c' : call) : Prop := forall s, do_call c s = do_call c' s.
+
+Lemma meta_call_same : forall j enc fmt,
+  call_same (WriteMeta (WDict j) enc fmt) (WriteMeta (WDict j) enc (Some (format_or_default fmt))).
+Proof. intros j enc fmt s. destruct fmt; reflexivity. Qed.
+
+Lemma diff_call_same : forall b ty enc le,
+  call_same (WriteDiff (WBytes b) ty enc le)
+            (WriteDiff (WBytes (fst (diff_prepared le enc b))) ty enc (snd (diff_prepared le enc b))).
+Proof.
+  intros b ty enc le s. unfold diff_prepared.
+  destruct (diff_prepare le enc b) as [[body lo]|e] eqn:E; [|reflexivity]. cbn [fst snd].
+  pose proof (C06_prepare_idem_bytes _ _ _ _ _ (bom_stable_all enc) E) as E2.
+  unfold do_call. destruct (match ty with WNone => Ok true | _ => _ end) as [tok|]; unfold bindM, lift; [|reflexivity].
+  destruct (negb tok); [reflexivity|].
+  unfold new_content_section, bindM, get_state, lift.
+  rewrite !diff_prepare_state, E, E2. reflexivity.
+Qed.
+
+(* for a preamble the text analogue of C06_prepare_idem_bytes is needed, in the state the writer is in (the
+   encoding may be inherited): re-preparing the text with its final newline and the recorded line_endings gives
+   the same bytes.  DomSpecText.C06_prepare_idem_text proves it from the codec laws of C01. *)
+Definition text_prep_stable (s : wstate) (t : text) (enc ind le : wv) : Prop :=
+  prepare_content s (CText (final_text (snd (pre_resolve le t)) t)) ind (fst (pre_resolve le t)) enc true
+  = prepare_content s (CText t) ind le enc true.
+
+Definition pre_ok (s : wstate) (c : call) : Prop :=
+  match c with
+  | WritePreamble (WStr t) enc ind le _ => text_prep_stable s t enc (indent_or_default ind) le
+  | _ => True
+  end.
+Fixpoint pre_ok_run (s : wstate) (cs : list call) : Prop :=
+  match cs with [] => True | c :: r => pre_ok s c /\ pre_ok_run (fst (do_call c s)) r end.
+
+Lemma pre_call_same : forall s t enc ind le mime,
+  text_prep_stable s t enc (indent_or_default ind) le ->
+  do_call (WritePreamble (WStr t) enc ind le mime) s
+  = do_call (WritePreamble (WStr (final_text (snd (pre_resolve le t)) t)) enc
+                           (Some (indent_or_default ind)) (fst (pre_resolve le t)) mime) s.
+Proof.
+  intros s t enc ind le mime H. unfold text_prep_stable in H. unfold do_call.
+  unfold bindM, lift. destruct (match mime with WNone => Ok true | _ => _ end) as [mok|]; [|reflexivity].
+  destruct (negb mok); [reflexivity|].
+  unfold new_content_section, bindM, get_state, lift. fold (indent_or_default ind).
+  change (match Some (indent_or_default ind) with Some v => v | None => WInt GenText.default_indent end)
+    with (indent_or_default ind).
+  rewrite H. reflexivity.
+Qed.
+
+Lemma calls_equiv_same : forall s c c', calls_equiv c c' -> pre_ok s c -> do_call c s = do_call c' s.
+Proof.
+  intros s c c' H Hp. destruct H.
+  - reflexivity.
+  - reflexivity.
+  - apply pre_call_same. exact Hp.
+  - apply meta_call_same.
+  - apply diff_call_same.
+Qed.
+
+Lemma run_all_same : forall cs cs', Forall2 calls_equiv cs cs' ->
+  forall s, pre_ok_run s cs -> run_all s cs = run_all s cs'.
+Proof.
+  induction 1 as [|c c' cs cs' R _ IH]; intros s Hp; [reflexivity|].
+  destruct Hp as [H1 H2]. cbn [run_all]. rewrite <- (calls_equiv_same s c c' R H1).
+  destruct (do_call c s) as [s1 [u|e]]; [apply IH; exact H2 | reflexivity].
+Qed.
+
+(* serialising the normalised tree gives the same bytes (fixed point); hypothesis: the preamble texts re-prepare
+   to the same bytes (none needed for metadata and diffs) *)
+Theorem C06_reserialise : forall t b cs s0,
+  typed_tree t = true -> dom_write t = Ok b -> tree_calls t = Ok cs ->
+  writer_init (tree_encoding t) (tree_version t) = (s0, Ok tt) -> pre_ok_run s0 cs ->
+  dom_write (normalise t) = Ok b.
+Proof.
+  intros t b cs s0 Ht Hw Hc Hi Hp.
+  apply C05_write_is_calls in Hw. destruct Hw as [Hk [s0' [cs0 [s1 [Hi' [Hc0 [Hr ->]]]]]]].
+  rewrite Hc in Hc0. injection Hc0 as <-. rewrite Hi in Hi'. injection Hi' as <-.
+  destruct (C06_tree_calls_normalised t cs Ht Hc) as [cs' [Hc' F]].
+  assert (Ht1 : typed_opts (d_opts t) = true).
+  { unfold typed_tree in Ht. apply andb_true_iff in Ht. destruct Ht as [Ht _]. apply andb_true_iff in Ht.
+    destruct Ht as [Ht _]. apply andb_true_iff in Ht. destruct Ht as [Ht _]. exact Ht. }
+  destruct (norm_main t Ht1) as [E1 [E2 E3]].
+  apply C05_write_is_calls. split; [exact E3|]. exists s0, cs', s1. rewrite E1, E2.
+  repeat split; try assumption. rewrite <- (run_all_same cs cs' F s0 Hp). exact Hr.
+Qed.
+
+(* a tree without preamble text needs no hypothesis *)
+Definition no_preamble_call (c : call) : bool := match c with WritePreamble _ _ _ _ _ => false | _ => true end.
+
+Lemma no_preamble_ok : forall cs s, forallb no_preamble_call cs = true -> pre_ok_run s cs.
+Proof.
+  induction cs as [|c cs IH]; intros s H; [exact I|].
+  cbn [forallb] in H. apply andb_true_iff in H. destruct H as [H1 H2]. split; [|apply IH; exact H2].
+  destruct c; try exact I. discriminate H1.
+Qed.
+
+Theorem C06_reserialise_no_preamble : forall t b cs,
+  typed_tree t = true -> dom_write t = Ok b -> tree_calls t = Ok cs -> forallb no_preamble_call cs = true ->
+  dom_write (normalise t) = Ok b.
+Proof.
+  intros t b cs Ht Hw Hc Hn. pose proof Hw as Hw'.
+  apply C05_write_is_calls in Hw'. destruct Hw' as [_ [s0 [_ [_ [Hi _]]]]].
+  apply (C06_reserialise t b cs s0 Ht Hw Hc Hi). apply no_preamble_ok. exact Hn.
+Qed.
+
+(* parse what the object model wrote, serialise again: identical bytes; and the parsed tree is a fixed point of
+   write-then-read *)
+Theorem C06_round_trip : forall orc t b cs s0,
+  typed_tree t = true -> dom_write t = Ok b -> reader_returns_expected orc t b ->
+  tree_calls t = Ok cs -> writer_init (tree_encoding t) (tree_version t) = (s0, Ok tt) -> pre_ok_run s0 cs ->
+  exists t', dom_read orc b = Ok t' /\ dom_write t' = Ok b /\ t' = normalise t /\ normalise t' = t'.
+Proof.
+  intros orc t b cs s0 Ht Hw Hr Hc Hi Hp. exists (normalise t).
+  split; [exact (C05_dom_round_trip orc t b Ht Hw Hr)|]. split; [exact (C06_reserialise t b cs s0 Ht Hw Hc Hi Hp)|].
+  split; [reflexivity | exact (C06_normalise_idem_typed t Ht)].
+Qed.
+
+Theorem C06_prepare_idem_diff : forall le enc b body lo,
+  diff_prepare le enc b = Ok (body, lo) -> diff_prepare lo enc body = Ok (body, lo).
+Proof. intros le enc b body lo. apply C06_prepare_idem_bytes. apply bom_stable_all. Qed.
+
+(* ================================================================================================ *)
+(* Examples: the hypotheses are satisfiable, on concrete trees *)
+
+Definition tx (s : String.string) : text := ascii_text (B s).
+
+(* one change; a preamble without indent / line_endings and without final newline; one file with metadata and
+   a diff lacking the final newline *)
+Definition ex_tree : dtree :=
+  {| d_opts := [(B "encoding", S_ "utf-8"); (B "version", S_ "1.0")];
+     d_pre := new_psec; d_meta := new_msec;
+     d_changes :=
+       [ {| c_opts := [];
+            c_pre := {| p_opts := []; p_content := Some (tx "hello") |};
+            c_meta := new_msec;
+            c_files :=
+              [ {| f_opts := [];
+                   f_meta := {| m_opts := [(B "format", S_ "json")]; m_content := [(tx "path", JStr (tx "a"))] |};
+                   f_diff := {| x_opts := []; x_content := Some (B "--- a" ++ [x0a] ++ B "+++ b") |} |} ] |} ] |}.
+
+(* the answers of json.loads for this case, literally *)
+Definition ex_orc : oracle :=
+  [(B "s{" ++ [x0a] ++ B "    ""path"": ""a""" ++ [x0a] ++ B "}" ++ [x0a], LoadsOk (JObj [(tx "path", JStr (tx "a"))]))].
+
+Definition ex_bytes : bytes :=
+  B "#diffx: encoding=utf-8, version=1.0" ++ [x0a] ++
+  B "#.change:" ++ [x0a] ++
+  B "#..preamble: indent=4, length=10, line_endings=unix" ++ [x0a] ++
+  B "    hello" ++ [x0a] ++
+  B "#..file:" ++ [x0a] ++
+  B "#...meta: format=json, length=20" ++ [x0a] ++
+  B "{" ++ [x0a] ++ B "    ""path"": ""a""" ++ [x0a] ++ B "}" ++ [x0a] ++
+  B "#...diff: length=12, line_endings=unix" ++ [x0a] ++
+  B "--- a" ++ [x0a] ++ B "+++ b" ++ [x0a].
+
+Definition ex_norm : dtree :=
+  {| d_opts := [(B "encoding", S_ "utf-8"); (B "version", S_ "1.0")];
+     d_pre := new_psec; d_meta := new_msec;
+     d_changes :=
+       [ {| c_opts := [];
+            c_pre := {| p_opts := [(B "indent", WInt 4); (B "line_endings", S_ "unix")];
+                        p_content := Some (tx "hello" ++ [10%N]) |};
+            c_meta := new_msec;
+            c_files :=
+              [ {| f_opts := [];
+                   f_meta := {| m_opts := [(B "format", S_ "json")]; m_content := [(tx "path", JStr (tx "a"))] |};
+                   f_diff := {| x_opts := [(B "line_endings", S_ "unix")];
+                                x_content := Some (B "--- a" ++ [x0a] ++ B "+++ b" ++ [x0a]) |} |} ] |} ] |}.
+
+Example ex_typed : typed_tree ex_tree = true.
+Proof. vm_compute. reflexivity. Qed.
+Example ex_normalise : normalise ex_tree = ex_norm.
+Proof. vm_compute. reflexivity. Qed.
+Example ex_write : dom_write ex_tree = Ok ex_bytes.
+Proof. vm_compute. reflexivity. Qed.
+Example ex_read : dom_read ex_orc ex_bytes = Ok ex_norm.
+Proof. vm_compute. reflexivity. Qed.
+Example ex_rewrite : dom_write ex_norm = Ok ex_bytes.
+Proof. vm_compute. reflexivity. Qed.
+(* the C01 hypothesis holds of the model's reader on this instance *)
+Example ex_reader_returns_expected : reader_returns_expected ex_orc ex_tree ex_bytes.
+Proof.
+  intros s0 cs Hi Hc. vm_compute in Hi. injection Hi as <-. vm_compute in Hc. injection Hc as <-.
+  eexists. split; vm_compute; reflexivity.
+Qed.
+Example ex_calls : exists cs s0, tree_calls ex_tree = Ok cs /\ List.length cs = 5 /\
+  writer_init (tree_encoding ex_tree) (tree_version ex_tree) = (s0, Ok tt) /\ pre_ok_run s0 cs.
+Proof.
+  eexists. eexists. split; [vm_compute; reflexivity|]. split; [reflexivity|]. split; [vm_compute; reflexivity|].
+  cbn [pre_ok_run pre_ok]. split; [exact I|]. split; [vm_compute; reflexivity|]. repeat split.
+Qed.
+
+(* a richer instance: main preamble (CRLF text, indent 2, mimetype) and metadata, a change in utf-16 with a
+   non-ASCII preamble and indent 0, files with their own encodings, a typed diff in utf-16, a dos diff *)
+Definition ex_tree2 : dtree :=
+  {| d_opts := [(B "version", S_ "1.0"); (B "encoding", S_ "utf-8")];
+     d_pre := {| p_opts := [(B "mimetype", S_ "text/markdown"); (B "indent", WInt 2)];
+                 p_content := Some (tx "a" ++ [13%N; 10%N] ++ tx "b") |};
+     d_meta := {| m_opts := [(B "format", S_ "json")]; m_content := [(tx "k", JInt 3)] |};
+     d_changes :=
+       [ {| c_opts := [(B "encoding", S_ "utf-16")];
+            c_pre := {| p_opts := [(B "indent", WInt 0)]; p_content := Some (tx "hello" ++ [233%N]) |};
+            c_meta := new_msec;
+            c_files :=
+              [ {| f_opts := [(B "encoding", S_ "latin-1")];
+                   f_meta := {| m_opts := [(B "format", S_ "json"); (B "encoding", S_ "utf-8")];
+                                m_content := [(tx "path", JStr (tx "a"))] |};
+                   f_diff := {| x_opts := [(B "type", S_ "text"); (B "encoding", S_ "utf-16")];
+                                x_content := Some (B "--- a" ++ [x0a] ++ B "+++ b") |} |};
+                {| f_opts := []; f_meta := {| m_opts := []; m_content := [(tx "path", JStr (tx "b"))] |};
+                   f_diff := new_dsec |} ] |};
+         {| c_opts := []; c_pre := new_psec; c_meta := new_msec;
+            c_files := [ {| f_opts := [];
+                            f_meta := {| m_opts := []; m_content := [(tx "path", JStr (tx "b"))] |};
+                            f_diff := {| x_opts := [(B "line_endings", S_ "dos")]; x_content := Some (B "x") |} |} ] |} ] |}.
+
+Definition ex_key (j : json) : bytes := match json_dump j with Ok b => ("s"%byte :: b) ++ [x0a] | Err _ => [] end.
+Definition ex_orc2 : oracle :=
+  map (fun j => (ex_key j, LoadsOk j))
+      [JObj [(tx "k", JInt 3)]; JObj [(tx "path", JStr (tx "a"))]; JObj [(tx "path", JStr (tx "b"))]].
+Definition ex_bytes2 : bytes := match dom_write ex_tree2 with Ok b => b | Err _ => [] end.
+
+Example ex2_typed : typed_tree ex_tree2 = true.
+Proof. vm_compute. reflexivity. Qed.
+Example ex2_write : dom_write ex_tree2 = Ok ex_bytes2 /\ List.length ex_bytes2 = 631.
+Proof. split; vm_compute; reflexivity. Qed.
+Example ex2_read : dom_read ex_orc2 ex_bytes2 = Ok (normalise ex_tree2).
+Proof. vm_compute. reflexivity. Qed.
+Example ex2_rewrite : dom_write (normalise ex_tree2) = Ok ex_bytes2.
+Proof. vm_compute. reflexivity. Qed.
+Example ex2_reader_returns_expected : reader_returns_expected ex_orc2 ex_tree2 ex_bytes2.
+Proof.
+  intros s0 cs Hi Hc. vm_compute in Hi. injection Hi as <-. vm_compute in Hc. injection Hc as <-.
+  eexists. split; vm_compute; reflexivity.
+Qed.
